@@ -56,6 +56,17 @@ public:
 	}
 	void registerObject(const void * p, const std::string & name) { names[p] = name; }
 	bool isRegistered(const void * p) const { return active && names.count(p) != 0; }
+	// objects the harness cannot name in advance (created by the code under test): asked once, when first locked
+	std::function<std::string (const void *)> autoName;
+	bool registerOnDemand(const void * p) {
+		if(! active || tlsId() < 0) return false;
+		if(names.count(p) != 0) return true;
+		if(! autoName) return false;
+		const std::string nm = autoName(p);
+		if(nm.empty()) return false;
+		names[p] = nm;
+		return true;
+	}
 	int self() const { return tlsId(); }
 	static int & tlsId() { static thread_local int id = -1; return id; }
 
@@ -250,7 +261,7 @@ struct VMutex
 {
 	void lock() {
 		Scheduler & s = Scheduler::get();
-		if(s.isRegistered(this)) { s.point(Kind::Lock, this); s.acquired(this); s.logAction("lock", this, 0, false); }
+		if(s.isRegistered(this) || s.registerOnDemand(this)) { s.point(Kind::Lock, this); s.acquired(this); s.logAction("lock", this, 0, false); }
 	}
 	void unlock() {
 		Scheduler & s = Scheduler::get();
